@@ -6,6 +6,9 @@ PatSet == { <<Lit(1)>>,
             <<Lit(1), Dot>>,
             <<Dot, Lit(2)>>,
             <<Cls({1, 3}), Dot, Cls({1, 2})>>,
+            \* the same class twice: the two positions take their letters independently
+            <<Cls({1, 2}), Lit(3), Cls({1, 2})>>,
+            <<Cls({1, 3}), Cls({1, 3})>>,
             <<Lit(1), Lit(1), Gap(0, 1), Cls({2, 3})>>,
             <<Lit(1), Gap(1, 2), Lit(2)>>,
             \* something before the run of letters that precedes the gap, and two gaps
@@ -13,7 +16,7 @@ PatSet == { <<Lit(1)>>,
             <<Dot, Lit(1), Gap(1, 2), Lit(3)>>,
             <<Cls({1, 3}), Dot, Lit(3), Gap(0, 2), Lit(1)>>,
             <<Lit(1), Gap(1, 2), Lit(2), Gap(0, 1), Lit(3)>> }
-PatSmall == { <<Lit(1), Dot>>, <<Cls({1, 3}), Dot, Cls({1, 2})>>, <<Lit(1), Gap(1, 2), Lit(2)>>, <<Lit(1), Lit(2)>>,
+PatSmall == { <<Lit(1), Dot>>, <<Cls({1, 2}), Lit(3), Cls({1, 2})>>, <<Cls({1, 3}), Cls({1, 3})>>, <<Cls({1, 3}), Dot, Cls({1, 2})>>, <<Lit(1), Gap(1, 2), Lit(2)>>, <<Lit(1), Lit(2)>>,
               <<Lit(1), Dot, Lit(2), Gap(0, 1), Lit(3)>>, <<Dot, Lit(1), Gap(1, 2), Lit(3)>>, <<Lit(1), Gap(1, 2), Lit(2), Gap(0, 1), Lit(3)>> }
 Emit == PrintT(ToJson([rows |-> rows, pat |-> [j \in DOMAIN pat |-> [kind |-> pat[j].kind, c |-> pat[j].c, set |-> pat[j].set, lo |-> pat[j].lo, hi |-> pat[j].hi]],
                        result |-> Result(rows, pat)]))
